@@ -83,7 +83,8 @@ def contract(cfg, seed):
         if cand is None:
             return {"what": "image and label of a sample are not mixed with the same partner and weight (or the reported lambda is not the weight used)",
                     "sample": i, "lambda": w, "image values": [float(v) for v in vals][:6], "label": yv[i].tolist()}
-        partners.append(cand[0] if w < 1 - 1e-6 else None)
+        # the partner is only decodable when its contribution exceeds the comparison tolerance (values of two partners differ by >= 1)
+        partners.append(cand[0] if (1 - w) >= 1e-3 else None)
     sm = cfg["shuffle_mode"]
     if n > 1:
         exp = {"roll": [(i - 1) % n for i in range(n)], "flip": [n - 1 - i for i in range(n)]}.get(sm)
